@@ -127,6 +127,15 @@ fn run(input: RunInput) -> ScenFuture {
             peer_logs.push(log);
             peers.push(p);
         }
+        // in some runs the node knows its peers - as High or Allowed, before the connections exist:
+        // what the known-peer table says has no bearing on how a network goes down
+        if w.flag("peers_in_known_peer_table", 0.35) {
+            let mut rk = w.rng("cfg:c08-known");
+            for p in &peers {
+                let affinity = if rk.gen_bool(0.6) { PeerAffinity::High } else { PeerAffinity::Allowed };
+                s.net.known_peers().insert(PeerInfo { peer_id: p.peer_id, affinity, address: vec![] });
+            }
+        }
         // connections (either direction)
         let mut r = w.rng("wl:c08");
         for p in &peers {
@@ -326,7 +335,37 @@ fn run(input: RunInput) -> ScenFuture {
         if mode >= 4 {
             let keep: Vec<anemo::Network> = net().into_iter().chain(peers.iter().map(|p| p.net.clone())).collect();
             let weak2 = weak.clone();
+            // API calls that are pending when the runtime goes (the application awaits them from
+            // somewhere that outlives it): they must come back - with an error - not stay pending
+            type Pending = (&'static str, std::pin::Pin<Box<dyn std::future::Future<Output = bool>>>);
+            let mut pending_calls: Vec<Pending> = Vec::new();
+            if r.gen_bool(0.6) {
+                if let Some(n) = net() {
+                    let n2 = n.clone();
+                    pending_calls.push(("shutdown", Box::pin(async move { n2.shutdown().await.is_ok() })));
+                    let n3 = n.clone();
+                    pending_calls.push(("connect", Box::pin(async move { n3.connect(addr(215)).await.is_ok() })));
+                }
+                let waker = futures::task::noop_waker();
+                let mut cx = std::task::Context::from_waker(&waker);
+                pending_calls.retain_mut(|(_, f)| f.as_mut().poll(&mut cx).is_pending());
+                // (give the requests the time to reach the connection manager in some runs)
+                if r.gen_bool(0.5) {
+                    sleep_ms(r.gen_range(0..30)).await;
+                    pending_calls.retain_mut(|(_, f)| f.as_mut().poll(&mut cx).is_pending());
+                }
+                w.probe_n("api-calls-pending-at-runtime-teardown", pending_calls.len() as u64);
+            }
+            let mixdesc2 = mixdesc.clone();
             after_runtime_teardown(Box::new(move || {
+                let waker = futures::task::noop_waker();
+                let mut cx = std::task::Context::from_waker(&waker);
+                for (name, f) in pending_calls.iter_mut() {
+                    if f.as_mut().poll(&mut cx).is_pending() {
+                        crate::runner::late_violation("api-call-pending-at-runtime-teardown-hangs", name, format!("a {name}() call that was pending when the runtime was torn down is still pending after the runtime is gone (nothing is left that could ever complete it); in flight: {mixdesc2}"));
+                    }
+                }
+                drop(pending_calls);
                 // API calls after the runtime is gone must neither panic nor hang
                 for n in &keep {
                     let _ = n.peers();
